@@ -148,7 +148,10 @@ def gen_case(seed, i):
             "fmt": rng.choice(["default", "json"]), "gap": rng.choice(STEPS),
             # the two processes may live in any time zone (POSIX TZ strings need no tz database)
             "tz": rng.choice(["UTC0", "UTC0", "CET-2", "EST5", "IST-5:30", "LINT-14", "HST10"]),
-            "tz2": rng.choice([None, None, "UTC0", "JST-9", "PST8"])}
+            "tz2": rng.choice([None, None, "UTC0", "JST-9", "PST8"]),
+            # the cut-off given explicitly with -m: the very instant `group` started (what the header supplies anyway),
+            # written as wall-clock time of the zone the dedupe command runs in, or with an explicit UTC offset
+            "mspell": rng.choice([None, None, None, "local", "+09:00", "-08:00", "+05:30", "+00:00"])}
 
 
 def gen_cases(tier, seed):
@@ -214,8 +217,18 @@ def shrink(case):
         c = dict(case); c["fmt"] = "default"; yield c
     if case.get("tz2"):
         c = dict(case); c["tz2"] = None; yield c
+    if case.get("mspell"):
+        c = dict(case); c["mspell"] = None; yield c
     if case.get("dargs"):
         c = dict(case); c["dargs"] = []; yield c
+
+
+def _posix_tz_offset(tz):
+    """seconds east of UTC of a POSIX TZ string without DST rule, e.g. JST-9 -> +32400, IST-5:30 -> +19800, EST5 -> -18000"""
+    import re
+    m = re.match(r"^[A-Za-z]+([+-]?)(\d+)(?::(\d+))?$", tz)
+    sec = int(m.group(2)) * 3600 + int(m.group(3) or 0) * 60
+    return sec if m.group(1) == "-" else -sec
 
 
 def run_case(case):
@@ -285,7 +298,13 @@ def run_case(case):
                 baseline[0] = inventory(rd.world)   # conservation counts from the state after the last edit
             return clock[0]
 
-        res = ops.dedupe(rd, case["op"], rep_bytes, extra=case.get("dargs", []), target=os.path.join(rd.world, "T"), plan=dplan, env=_env(case, True),
+        mextra = []
+        if case.get("mspell"):
+            import time as _time
+            sp = case["mspell"]
+            off = _posix_tz_offset(case.get("tz2") or case.get("tz") or "UTC0") if sp == "local" else (int(sp[:3]) * 3600 + int(sp[0] + sp[4:]) * 60)
+            mextra = ["-m", _time.strftime("%Y-%m-%d %H:%M:%S", _time.gmtime(T_START // 10**9 + off)) + ("" if sp == "local" else " " + sp)]
+        res = ops.dedupe(rd, case["op"], rep_bytes, extra=case.get("dargs", []) + mextra, target=os.path.join(rd.world, "T"), plan=dplan, env=_env(case, True),
                          now_ns=clock[0], on_hit=on_hit_dedupe if d_edits else None, seed=5, threads_env=1)
         traces.append(res.trace)
         after = inventory(rd.world)
